@@ -48,6 +48,10 @@ def run(prop, tier, seed, work, ev):
         for text, doc in (("sum(@)", "[1e308, 1e308]"), ("avg(@)", "[1e308, 1e308]"), ("sum(a)", "{\"a\": [1.7e308, 1.7e308, 1]}")):
             f.write(json.dumps({"e": "err", "kind": "nonfinite", "text": common.cps(text), "doctext": common.cps(doc)}) + "\n")
     rejects += run_and_judge("runtime error sites and non-finite results", c, work, ev, drv, nsamples=3)
+    # which of several failures is reported: the first one in evaluation order (written order of hash members and operands, element order
+    # inside by-functions) -- judged by the kind of the reported failure
+    import eng_eval
+    rejects += eng_eval.pool_families(["errpair", "keyorder", "byorder", "selfnest"], work, ev, drv)
     # compile failures: coordinates of every parse error
     c = work.path("errchars.cases")
     eng_lang.gen(work, "chars", c, t["chars"], alpha="err")
